@@ -572,6 +572,20 @@ func cases(thorough bool) []tcase {
 				}
 			}
 			sizes = append(sizes, 1, 2, 3, recv-1, recv, recv+1, 3*recv+5)
+			if thorough {
+				// every size up to three chunks for small chunks, and a dense band around each multiple otherwise
+				if eff <= 100 {
+					for sz := 1; sz <= 3*eff+3; sz++ {
+						sizes = append(sizes, sz)
+					}
+				} else {
+					for _, k := range []int{1, 2, 3, 4} {
+						for d := -12; d <= 12; d++ {
+							sizes = append(sizes, k*eff+d)
+						}
+					}
+				}
+			}
 			seen := map[int]bool{}
 			for _, sz := range sizes {
 				if sz < 1 || seen[sz] || sz/max(eff, 1) > 60 {
@@ -601,6 +615,18 @@ func cases(thorough bool) []tcase {
 		}
 		for _, sz := range []int{1, 2, 3, 10, 100, 1000, 5000} {
 			seen[sz] = true
+		}
+		if thorough {
+			for _, base := range []int{1014, send, send - 5, send - 21} {
+				for _, k := range []int{1, 2, 3, 4, 5} {
+					for d := -25; d <= 25; d++ {
+						seen[k*base+d] = true
+					}
+				}
+			}
+			for sz := 1; sz <= 64; sz++ {
+				seen[sz] = true
+			}
 		}
 		for sz := range seen {
 			out = append(out, tcase{Kind: "upload", Size: sz, RecvMTU: p.recv, SendMTU: p.send, Content: sz % 3, Fault: none})
@@ -664,6 +690,14 @@ func runAll(cs []tcase, mode string, collect func(tcase, outcome)) {
 				select {
 				case o := <-done:
 					r.Evaluations.Add(1)
+					r.States.Add(1) // one complete protocol run
+					r.Transitions.Add(int64(len(o.log)))
+					r.Traces.Add(1)
+					if c.Fault.Index >= 0 && o.hit {
+						r.Sample(4, map[string]any{"case": c, "fault": o.detail, "to2_error": fmt.Sprint(o.err), "files_at_destination": len(o.dest)})
+					} else if c.Fault.Index < 0 {
+						r.Sample(2, map[string]any{"case": c, "to2_error": fmt.Sprint(o.err), "files_at_destination": len(o.dest)})
+					}
 					vs := judge(c, o)
 					for _, v := range vs {
 						r.Violation(v.key, fmt.Sprintf("[%s size=%d chunk=%d recv=%d send=%d http=%s] %s", c.Kind, c.Size, c.Chunk, c.RecvMTU, c.SendMTU, c.HTTP, v.what), map[string]any{"mode": mode, "case": c})
@@ -719,6 +753,19 @@ func main() {
 			tcase{Kind: "upload", Size: 6000, RecvMTU: 4096, SendMTU: 4096, Content: 2, Fault: fault{Index: -1}},
 			tcase{Kind: "upload", Size: 1, RecvMTU: 1300, SendMTU: 1300, Fault: fault{Index: -1}},
 			tcase{Kind: "wget", Size: 1, HTTP: "ok", Fault: fault{Index: -1}})
+		for _, sz := range []int{2, 1013, 1014, 1015, 2027, 2029, 3042, 4100} {
+			for _, ch := range []int{0, 7, 1014, -1} {
+				if ch == 7 && sz > 100 {
+					continue
+				}
+				bases = append(bases, tcase{Kind: "download", Size: sz, Chunk: ch, RecvMTU: 1300, SendMTU: 1300, Must: sz%2 == 0, Content: sz % 3, Fault: fault{Index: -1}})
+			}
+			bases = append(bases, tcase{Kind: "upload", Size: sz, RecvMTU: 1300, SendMTU: 1300, Content: sz % 3, Fault: fault{Index: -1}},
+				tcase{Kind: "upload", Size: sz, RecvMTU: 65535, SendMTU: 2048, Content: sz % 3, Fault: fault{Index: -1}})
+		}
+		bases = append(bases, tcase{Kind: "download", Size: 20, Chunk: 7, RecvMTU: 1300, SendMTU: 1300, Must: true, Fault: fault{Index: -1}},
+			tcase{Kind: "download", Size: 21, Chunk: 7, RecvMTU: 1300, SendMTU: 1300, Fault: fault{Index: -1}},
+			tcase{Kind: "wget", Size: 4096, HTTP: "ok", Fault: fault{Index: -1}})
 	}
 	var faults []tcase
 	runAll(bases, "fault-base", func(c tcase, o outcome) { faults = append(faults, faultCases(c, o.log)...) })
